@@ -113,7 +113,9 @@ def _sharp_end(draw):
     """q' = p, p' = -W(t) q with W ramping up sharply at 96 % of the span: the clipped last step of the call is rejected and
     retried by the adaptive methods (embedded pairs, Richardson wrappers of explicit / splitting / implicit bases)"""
     method = draw(st.sampled_from(["RK45CKSolver", "DOPRI45", "HeunEulerSolver", "RK8713MSolver", "Rich2:RK4Solver", "Rich3:ABAs5o6HSolver", "Rich2:BABs9o7HSolver",
-                                   "Rich3:SymplecticEulerSolver", "Rich2:ImplicitMidpoint", "Rich3:MidpointSolver"]))
+                                   "Rich3:SymplecticEulerSolver", "Rich2:ImplicitMidpoint", "Rich3:MidpointSolver",
+                                   # implicit methods: a step whose Newton iteration fails is retried at 0.8 of its size
+                                   "BackwardEuler", "ImplicitMidpoint", "CrankNicolson", "GaussLegendre4", "RadauIIA5", "LobattoIIIC4"]))
     t0 = draw(st.sampled_from([0.0, -3.0, 10.0]))
     L = draw(st.sampled_from([1.0, 2.0, 0.5]))
     sgn = draw(st.sampled_from([1.0, 1.0, -1.0]))
@@ -181,6 +183,19 @@ def _check_sharp_end(case):
             clipped_retry = True
     if clipped_retry:
         labels.append("clipped_last_step_was_retried")
+    if inner_name == "step" and not viols:
+        # what is recorded is what the integrator did: the length of each recorded step is the size of the last attempt made from
+        # its start (a retried, shortened step must not be recorded as if it had reached the point first aimed at)
+        tt = np.asarray(a.t, dtype=np.float64)
+        last = {}
+        for t_, h_ in attempts:
+            last[t_] = h_
+        for k in range(len(tt) - 1):
+            h_last = last.get(float(tt[k]))
+            if h_last is not None and abs((tt[k + 1] - tt[k]) - h_last) > 16 * float(np.finfo(np.float64).eps) * max(1.0, abs(tt[k]), abs(tt[k + 1])):
+                viols.append(V("recorded_step_not_the_step_taken", "{}: step {} is recorded from {!r} to {!r} (length {!r}) but the last attempt made from there had size {!r}{}".format(
+                    method, k, float(tt[k]), float(tt[k + 1]), float(tt[k + 1] - tt[k]), h_last, " (the clipped last step of the call)" if k == len(tt) - 2 else ""), fam, **attrs))
+                break
     return viols, dict(nontrivial=clipped_retry, labels=labels)
 
 
